@@ -124,9 +124,15 @@ def run_modes(cfg, prior_name, seq, poller=None):
     pri = (PRIORS_V2 if cfg['v2'] else PRIORS_V1)[prior_name]
     a1, n1 = group_addr(cfg, 1)
     dev.rf.setbytes(a1, pri)
+    others = None
+    if poller and poller.startswith('others:'):
+        # groups 2..4 hold ENABLED schedules of another kind (peak shaving, dry contact, 745 ...): their on/off byte is not
+        # the plain -1
+        others = (PRIORS_V2 if cfg['v2'] else PRIORS_V1).get(poller.split(':', 1)[1])
+        poller = None
     for k in (2, 3, 4):
         ak, nk = group_addr(cfg, k)
-        dev.rf.setbytes(ak, (SCHED_BASE[1] if cfg['v2'] else ECO_V1_BASE[1]))    # enabled groups to be switched off
+        dev.rf.setbytes(ak, others if others is not None else (SCHED_BASE[1] if cfg['v2'] else ECO_V1_BASE[1]))    # enabled groups to be switched off
     if r.call(inv.read_device_info)[0] != 'ok':
         return [('device-info', '')], 0
     modes = r.call(inv.get_operation_modes, True)[1]
@@ -278,14 +284,16 @@ def job_e2e(j):
     for seq in seqs:
         if prior_name == 'undecodable' and seq[0][0] not in (OM.ECO_CHARGE, OM.ECO_DISCHARGE):
             continue
+        if poller and poller.startswith('others:') and not (len(seq) == 1 and seq[0][0] in (OM.ECO_CHARGE, OM.ECO_DISCHARGE) and seq[0][1:] in ((55, 50), (100, 100))):
+            continue
         if poller and poller.startswith('other-between') and not (len(seq) == 1 and seq[0][0] in (OM.ECO_CHARGE, OM.ECO_DISCHARGE)):
             continue
-        if poller and poller != 'getter-first' and not poller.startswith('other-between') and not (len(seq) == 1 and seq[0][0] in (OM.ECO_CHARGE, OM.ECO_DISCHARGE) and seq[0][1:] in ((55, 50), (9, 50))):
+        if poller and poller != 'getter-first' and not poller.startswith('other-between') and not poller.startswith('others:') and not (len(seq) == 1 and seq[0][0] in (OM.ECO_CHARGE, OM.ECO_DISCHARGE) and seq[0][1:] in ((55, 50), (9, 50))):
             continue
         vio, k = run_modes(cfg, prior_name, seq, poller)
         n += k
         for key, cause in vio:
-            kk = f"{key}/{cfg['name']}/prior:{prior_name}" + ('/after-a-getter-call' if poller == 'getter-first' else f"/another-object-reads-between:{poller.split(':', 1)[1]}" if poller and poller.startswith('other-between') else f"/while-polling:{poller.split('@')[0]}" if poller else '')
+            kk = f"{key}/{cfg['name']}/prior:{prior_name}" + ('/after-a-getter-call' if poller == 'getter-first' else f"/another-object-reads-between:{poller.split(':', 1)[1]}" if poller and poller.startswith('other-between') else f"/groups-2-4-hold:{poller.split(':', 1)[1]}" if poller and poller.startswith('others:') else f"/while-polling:{poller.split('@')[0]}" if poller else '')
             out.setdefault(kk, []).append(dict(key=kk, clause=key.split('/')[0],
                                                replay=dict(part='e2e', cfg=cfg, prior=prior_name, poller=poller,
                                                            seq=[[getattr(m, 'name', m), p, s] for m, p, s in seq]),
@@ -415,6 +423,9 @@ def run(tier, seed, rep):
             jobs.append((cfg, prior))
             jobs.append((cfg, prior, 'same'))
             jobs.append((cfg, prior, 'getter-first'))
+            if prior == 'off':
+                for other in (PRIORS_V2 if cfg['v2'] else PRIORS_V1):
+                    jobs.append((cfg, prior, f'others:{other}'))
             if prior in ('off', 'charge'):
                 for other in (PRIORS_V2 if cfg['v2'] else PRIORS_V1):
                     jobs.append((cfg, prior, f'other-between:{other}'))
